@@ -133,4 +133,96 @@ ENTRIES["C20"] = {
     "note": UDP_NOTE + " " + TCP_NOTE + " MTU tables symmetric in the address pair.",
 }
 
+FAULT_NOTE = ("Trusted: TLC; the scripted endpoints of harness/record_tcp.cpp / record_udp.cpp and the step hook in "
+              "simulation::run() (commit 'verif: step hook', guard LIBSIMULATOR_VERIF) that defines the boundaries; ASan + UBSan + "
+              "-D_GLIBCXX_ASSERTIONS decide memory safety, TLC decides that the surviving objects still behave as specified. "
+              "Base scenarios: S2 loss-free transfer, S3 lossy transfer, S4 three accept forms + refused connect, S7 two "
+              "connections, S8 socket reuse, S5 UDP exchange. Quick tier samples boundaries, thorough visits every one.")
+ENTRIES["C04"] = {
+    "level": "fault_enumeration",
+    "technique": "TLA+ specs (Tcp/Udp/SimCore/Resolver: outstanding operation + owed aborted handlers) ; close/cancel/destroy injected at every run-loop boundary; traces validated by TLC",
+    "text": ("Exactly-once, never-inline, aborted-at-once: the trace specs keep per object the outstanding operation and the "
+             "number of aborted handlers still owed; every completion event must consume one of them, none may be logged from "
+             "inside the initiating call, and the End event requires that nothing is owed. The interventions are enumerated "
+             "over every handler boundary of the base scenarios, every participating socket / acceptor and {close, cancel, "
+             "destroy}; timers and resolvers are covered by the TLC-generated SimCore and Resolver corpora which place "
+             "cancel/re-arm/destroy at every point of their bounded programs."),
+    "note": FAULT_NOTE,
+}
+ENTRIES["C12"] = {
+    "level": "fault_enumeration",
+    "technique": "close/cancel/destroy/throw injected at every run-loop boundary under ASan+UBSan; surviving behaviour validated by TLC against Tcp.tla / Udp.tla",
+    "text": ("Enumeration of crash points: for every boundary k between two handler executions of the base scenarios, every object "
+             "and every intervention the run is repeated and continued to quiescence (or to the propagated exception, after "
+             "which the simulation and all objects are destroyed in both orders). A sanitizer report, a failed libstdc++ "
+             "assertion, a crash or a hang is a violation; so is a trace that is not a behaviour of the specification (packets "
+             "addressed to the dead object must vanish, the others must carry on)."),
+    "note": FAULT_NOTE + " Memory safety is decided by the sanitizers on the enumerated schedules, not by TLC.",
+}
+ENTRIES["C19"] = {
+    "level": "model_checking",
+    "technique": "TLA+ spec (Pcap) model-checked by TLC; capture files written by the real code parsed by an independent reader and validated record by record by TLC (TracePcap) against the probe-observed first-hop transmissions",
+    "text": ("spec/Pcap.tla states what the capture must contain: one record per first-hop transmission in order, timestamp = "
+             "virtual time, IPv4 + UDP/TCP headers with the right endpoints and lengths, TCP sequence number = bytes previously "
+             "transmitted in that direction of that connection (retransmissions repeat it), payload unchanged. TLC checks the "
+             "bounded model and validates the parsed capture of every recorded TCP/UDP run, including a 2.5-hour (virtual) run "
+             "for the 32-bit seconds/microseconds split."),
+    "note": ("Trusted: TLC; the struct-level pcap parser in lib/checks.py (written from the file-format definition, shares no code "
+             "with pcap.cpp); first-hop probe sinks. IPv4 only; datagrams that fit one IPv4 packet."),
+}
+ENTRIES["C15"] = {
+    "level": "model_checking",
+    "technique": "TLA+ spec (HttpParse: request grammar, path normalisation, header lookup, end-of-head search) evaluated by TLC to enumerate inputs with expected results; replayed on the real parser under ASan and against a guard page",
+    "text": ("The parser is a pure function, so the specification is its transcription: TLC enumerates every well-formed request of "
+             "a bounded grammar together with the method, normalised path, header map (last duplicate wins, names lower-cased, "
+             "values trimmed) and head length the statement demands, and every string over a 6-symbol alphabet up to length 6/7 "
+             "with the expected find_request_len; the replayer runs each through sim::http parsing in an exactly sized heap block "
+             "and flush against an inaccessible page and compares all results."),
+    "note": ("Trusted: TLC; harness/replay_http_parse.cpp. Bounds: <= 3 path segments, <= 2 header lines, strings <= 7 symbols, "
+             "plus all prefixes and random mutations of the well-formed sample."),
+}
+ENTRIES["C16"] = {
+    "level": "model_checking",
+    "technique": "TLA+ spec (HttpServer) model-checked by TLC; TLC-enumerated cut patterns and random request programs run against the real http_server; recorded traces validated by TLC (TraceHttpServer)",
+    "text": ("spec/HttpServer.tla: per connection the requests complete in order, each gets exactly one response determined by the "
+             "handler table (404 for unknown paths, the registered status/body otherwise), keep-alive keeps the connection, "
+             "'Connection: close', a malformed head or stop() end it, segmentation is irrelevant. TLC checks the bounded model "
+             "and emits every cut pattern of <= 4 writes; these, every single-byte cut of a 3-request stream and random programs "
+             "run on the real server and every trace must be a behaviour of the spec."),
+    "note": ("Trusted: TLC; harness/record_http.cpp with its own response framer. stop() only while the accept queue is empty."),
+}
+ENTRIES["C18"] = {
+    "level": "model_checking",
+    "technique": "TLA+ spec (HttpProxy) model-checked by TLC; request programs run through the real http_proxy to a scripted origin; recorded traces validated by TLC (TraceHttpProxy)",
+    "text": ("spec/HttpProxy.tla: each absolute-URI request reaches the origin named by its URL in origin form with method, "
+             "headers and body intact, in order, over one upstream connection per client connection; responses come back in "
+             "order; refusing / unresolvable origins yield 503; anything else closes the client connection only. Every "
+             "single-byte cut of a 2-request stream and random programs (pipelining, named hosts, pauses, stop()) are validated."),
+    "note": ("Trusted: TLC; harness/record_proxy.cpp (scripted origin, strict response framer). Port 80 cannot be bound in the "
+             "simulator, so the default port is only observable as a 503."),
+}
+ENTRIES["C17"] = {
+    "level": "model_checking",
+    "technique": "TLA+ spec (Socks) model-checked by TLC; every single-field mutation and every EOF position of the negotiation plus random session mixes run against the real socks_server under ASan+UBSan; recorded traces validated by TLC (TraceSocks)",
+    "text": ("spec/Socks.tla: a well-formed session gets exactly the reply code its outcome calls for (success / 5 or 91 / 4), then "
+             "bytes are relayed in order and unchanged in both directions (offsets of a PRF stream), datagrams are forwarded once "
+             "with the header stripped and come back wrapped naming their source, command counters lie between the number of "
+             "well-formed and of received requests, and a served session is never closed by the proxy; a malformed session may "
+             "at worst be closed. The enumeration covers each header field x out-of-range values, early EOF at every byte, host "
+             "names of 1, 2, 3 and 11 characters, cached-name and short datagrams, each followed by a fresh valid session."),
+    "note": ("Trusted: TLC; harness/record_socks.cpp (strict client that sends the next message only after the complete previous "
+             "reply; scripted targets). The out-of-bounds/crash clause is decided by the sanitizers on the enumerated inputs."),
+}
+ENTRIES["C01"] = {
+    "level": "model_checking",
+    "technique": "TLA+ spec (SimCore: one total order of handlers, no source of choice) model-checked by TLC; the same programs executed in 4 process environments and their complete traces + capture files compared byte for byte; the traces are the ones the other Trace specs validate",
+    "text": ("Determinism has a design part - the specification has exactly one behaviour per program (ExclusiveInternal and the "
+             "Gen corpora, where the replay of a TLC behaviour must match in every observable) - and an implementation part: "
+             "nothing outside the program (heap contents and layout, ASLR, earlier simulations in the process, uninitialised "
+             "members) may influence a run. The second part is decided by executing TCP/UDP/resolver/timer programs in four "
+             "deliberately different environments with the optimised build and requiring identical traces and pcap files."),
+    "note": ("Trusted: the recorders; glibc MALLOC_PERTURB_, setarch -R. Wall-clock and thread scheduling are not inputs of the "
+             "library (single-threaded, no real time), dump_network_graph prints pointers by design."),
+}
+
 NOT_APPLICABLE = {}
